@@ -43,6 +43,7 @@ MANIFEST = dict(
          "tolerances propagated from the per-quantity ones. Held = no monitor fired on the executions observed.",
     note="Trusts oracle/ref_geod.hpp + ref_geodarea.hpp (self-checked each run four independent ways) and the documented position-accuracy "
          "tables as tolerance model; series solver judged for |f| <= 0.2 only; inverse truth comparison void near conjugacy (self-consistency "
-         "still judged); an S12 error of exactly a multiple of half the ellipsoid area on an exactly meridional geodesic would only be seen "
-         "by the oracle monitor, not by the law monitors.",
+         "still judged); inverse results whose returned (azi1, s12) miss point 2 by more than the position tolerance are counted as an event "
+         "and left to C02; an S12 error of exactly a multiple of half the ellipsoid area on an exactly meridional geodesic or at an end point "
+         "lying on a pole is absorbed by the documented +-180 deg azimuth convention (counted as events).",
     design_ref="DESIGN.md#c03")
